@@ -116,6 +116,7 @@ def requirements(tier):
         "kepler:inverse": 2000, "kepler:periodicity": 300, "kepler:hyperbolic-uv-compared": 500,
         "j2:rates-compared": 2000, "j2:inc:polar-exact": 100, "j2:inc:critical": 100, "j2:inc:critical-retro": 100,
         "j2:polar-node-checked": 100, "j2:critical-perigee-checked": 200, "j2:composition": 1000, "j2:inverse": 1000,
+        "kepler:history-burn": 500, "j2:history-burn": 300,
         "labels:kepler:compared": 500, "labels:j2:compared": 500, "labels:leap-second-inside-span": 300,
         "labels:scales-differ": 500, "labels:shared-propagator-second-orbit": 500, "labels:inplace-edit": 200,
         "labels:first-orbit-asked-again": 500, "labels:several-dates-judged": 1500, "labels:several-dates:direct": 100,
@@ -790,3 +791,53 @@ def run_case(ctx, job, idx, rng, st):
                           msg=f"p(dt {'+' if s > 0 else '-'} T) differs from p(dt) by {dT!r} m (T={T_true} s, grid slip {slip} s accounted)")
                 ctx.resid("kepler:periodicity:vel", dvT, tol_v + tp_v + (mu / r1n ** 2) * unc, key="C05/kepler-periodicity", witness=wT,
                           msg=f"p(dt +- T) differs from p(dt) by {dvT!r} m/s")
+
+    # ---------------- history: coast / burn / coast -----------------------------------------------
+    # The state the propagator returned (or a copy of it, or the initial orbit after its derived quantities were looked at)
+    # is edited in place so that its semi-major axis changes, and is propagated again: the second arc obeys the same laws
+    # with the elements of the EDITED state.  Nothing may survive from the object's past (mean motion, rates).
+    if idx % 3 == 0:
+        mode = ("returned-state", "copy-of-returned-state", "initial-orbit-after-infos")[(idx // 3) % 3]
+        try:
+            if mode == "returned-state":
+                obj = out
+            elif mode == "copy-of-returned-state":
+                obj = out.copy()
+            else:
+                _ = (orb.infos.n, orb.infos.period if not hyper else None)
+                obj = orb.copy()
+            if obj.form.name != "cartesian":
+                obj.form = "cartesian"
+            f = 1 + rng.choice((-1, 1)) * rng.uniform(0.004, 0.03)
+            obj[3:] = probe.arr(obj)[3:] * f
+            hb = read_state(obj, frame)
+        except Exception as exc:
+            ctx.violation(f"C05/{K}-history-edit-raises", dict(W, mode=mode, exc=repr(exc)), f"editing a {mode} in place raised {exc!r}")
+            return
+        rb, vb = hb[:3].copy(), hb[3:].copy()
+        cb = el.classical(rb, vb, mu)
+        if not (cb["e"] < 0.97 and cb["a"] > 0 and np.all(np.isfinite(hb))):
+            ctx.count(f"{K}:history-burn-skipped-not-elliptic")
+            return
+        dtb = t2 / 1e6 if t2 else dt
+        micro = t2 if t2 else us
+        gotc = prop(obj, obj.date, micro, f"second arc after an in-place edit ({mode})")
+        if gotc is None:
+            return
+        _c, oc = gotc
+        if kind == "kepler":
+            rtb, vtb, _s, _sr, _sv = tb.propagate_uv(rb, vb, dtb, mu)
+        else:
+            _e, rtb, vtb = tb.j2_secular(cb["a"], cb["e"], cb["i"], cb["raan"], cb["argp"], cb["M"], dtb, mu, st["j2"], st["re"])
+        tp, tv = state_tol(mu, cb["a"], cb["e"], cb["i"], norm(rb), norm(vb), norm(rtb), norm(vtb), dtb)
+        okc = bool(np.all(np.isfinite(oc)))
+        dpc = norm(oc[:3] - rtb) if okc else float("nan")
+        dvc = norm(oc[3:] - vtb) if okc else float("nan")
+        wh = dict(W, mode=mode, factor=f, edited_state=hb.tolist(), dt_second_arc=dtb, got=oc.tolist(), truth_r=rtb.tolist(), truth_v=vtb.tolist(),
+                  how="state edited in place (velocity scaled), then propagated again; truth from the edited numbers")
+        ctx.count(f"{K}:history-burn")
+        ctx.count(f"{K}:history-burn:{mode}")
+        ctx.resid(f"{K}:history-burn:pos", dpc, tp, key=f"C05/{K}-second-arc-after-inplace-edit", witness=wh,
+                  msg=f"{pname}: second arc after an in-place velocity change ({mode}) is {dpc!r} m off the law applied to the edited state")
+        ctx.resid(f"{K}:history-burn:vel", dvc, tv, key=f"C05/{K}-second-arc-after-inplace-edit", witness=wh,
+                  msg=f"{pname}: second arc after an in-place velocity change ({mode}) is {dvc!r} m/s off")
